@@ -715,3 +715,58 @@ def run(ctx):
     r = _run_chunk(ctx)
     t_impl_eoi(ctx, load.program('core-full'))
     return r
+
+
+def t_impl_nil(ctx, prog):
+    """the item kinds that carry no payload (null, undefined, simple values, break) are accepted only by types whose own encoding can
+    start with them: `undefined` read as `Option::None` is a different value, not a leniency of the data model"""
+    from .. import l1, l2
+    from ..absint import State
+    from . import summaries, c17
+    ctx.rules_run.append('T-IMPL.nil: every built-in Decode impl over a null / undefined / simple / break item: a value is returned only if the type\'s own Encode impl can start an encoding with that kind of item (Option and Token for null; Token for the others); anything else must be an error')
+    enc = dict((i['self_ty'], i) for i in prog.impls if i['trait'] == 'minicbor::encode::Encode' and i['krate'] == 'minicbor')
+    dec = dict((i['self_ty'], i) for i in prog.impls if i['trait'] == 'minicbor::decode::Decode' and i['krate'] == 'minicbor')
+    U = dict(c17.universe(True))
+    KIND = {'null': 'NULL', 'undefined': 'UNDEF', 'simple': 'SIMPLE', 'break': 'BREAK'}
+    n = 0
+    for t in sorted(set(enc) & set(dec)):
+        e = summaries.summary(prog, enc[t]['trait_ref'] + '::encode', 'enc')
+        if e is None or e[0] == 'abort':
+            continue
+        own = set()
+        for eo in e[1]:
+            if eo.kind == 'return' and l1.result_kind(eo.value) == 'Ok':
+                its = l2.items_of(eo.st.events)
+                if its:
+                    own.add(its[0][0])
+        where = mir.loc(dec[t]['sp'])
+        path = dec[t]['trait_ref'] + '::decode'
+        if prog.one(path) is None:
+            continue
+        for uk, kind in sorted(KIND.items()):
+            if uk not in U:
+                continue
+            try:
+                r = c17.run_de(prog, path, [U[uk]], l2.decoder_overrides(), st=State())
+            except (Abort, RecursionError, KeyError, IndexError, TypeError, AttributeError) as ex:
+                ctx.notes.append('T-IMPL.nil: %s on %s not interpreted (%s)' % (t, uk, type(ex).__name__))
+                continue
+            if r is None:
+                continue
+            n += 1
+            oks = [o for o in r[1] if o.kind == 'return' and l1.result_kind(o.value) == 'Ok' and not any(ev_[0] == 'DECLEAF' for ev_ in o.st.events)]
+            if oks and kind not in own:
+                ctx.violation('T-IMPL.nil', '%s|%s' % (t, uk), 'Decode for %s turns a %s item into the value %r although no value of the type is encoded that way (its encodings start with %s)' % (
+                    t, uk, oks[0].value.fields[0] if oks[0].value.fields else oks[0].value, sorted(own)), where)
+            else:
+                ctx.ok('T-IMPL.nil', '%s|%s' % (t, uk), nontrivial=bool(oks))
+    ctx.floor('T-IMPL.nil', 'type x item', n, 250)
+
+
+_run_eoi = run
+
+
+def run(ctx):
+    r = _run_eoi(ctx)
+    t_impl_nil(ctx, load.program('core-full'))
+    return r
